@@ -1842,14 +1842,20 @@ class Pipeline:
             if output_names is None
             else {pipeline.node_mapping[n] for n in output_names}  # type: ignore[misc]
         )
-        between = _find_nodes_between(pipeline.graph, input_nodes, output_nodes)
-        drop = [f for f in pipeline.functions if f not in between]
+        if inputs is not None and output_names is None:
+            # Without requested outputs: the leaf nodes that depend on the given inputs
+            downstream: set[Any] = set()
+            for node in input_nodes:
+                downstream.update(nx.descendants(pipeline.graph, node))
+            output_nodes &= downstream
+        needed = _find_needed_functions(pipeline, set(inputs or ()), output_nodes)
+        drop = [f for f in pipeline.functions if f not in needed]
         for f in drop:
             pipeline.drop(f=f)
 
         if inputs is not None:
             new_root_args = set(pipeline.topological_generations.root_args)
-            if not new_root_args.issubset(inputs):
+            if not new_root_args.issubset(set(inputs) | set(pipeline.defaults)):
                 outputs = {f.output_name for f in pipeline.functions}
                 msg = (
                     f"Cannot construct a partial pipeline with `{outputs=}`"
@@ -2101,19 +2107,29 @@ def _traverse_graph(
     return sorted(_traverse(start), key=at_least_tuple)
 
 
-def _find_nodes_between(
-    graph: nx.DiGraph,
-    input_nodes: set[Any],
-    output_nodes: set[Any],
-) -> set[Any]:
-    reachable_from_inputs = set()
-    for input_node in input_nodes:
-        reachable_from_inputs.update(nx.descendants(graph, input_node))
-    reachable_to_outputs = set()
-    for output_node in output_nodes:
-        reachable_to_outputs.update(nx.ancestors(graph, output_node))
-    reachable_to_outputs.update(output_nodes)
-    return reachable_from_inputs & reachable_to_outputs
+def _find_needed_functions(
+    pipeline: Pipeline,
+    inputs: set[str],
+    output_nodes: set[PipeFunc],
+) -> set[PipeFunc]:
+    """Return the functions needed to compute ``output_nodes`` when ``inputs`` are given.
+
+    These are the output functions and, recursively, the functions that produce their
+    parameters, without looking beyond a parameter that is bound or given in ``inputs``.
+    """
+    needed: set[PipeFunc] = set()
+    stack = list(output_nodes)
+    while stack:
+        f = stack.pop()
+        if f in needed:
+            continue
+        needed.add(f)
+        for p in f.parameters:
+            if p in f._bound or p in inputs:
+                continue
+            if p in pipeline.output_to_func:
+                stack.append(pipeline.output_to_func[p])
+    return needed
 
 
 @dataclass(frozen=True, slots=True)
